@@ -12,7 +12,7 @@ cp /repo/Cargo.lock "$wt/"
 export CARGO_TARGET_DIR="$wt/target" CARGO_NET_OFFLINE=true
 cd "$wt"
 cp "$md/demo.rs" tests/demo_mut.rs
-feat=""; grep -qi "demo needs --no-default-features" "$md/notes.md" 2>/dev/null && feat="--no-default-features"
+feat=""; grep -qiE "demo needs --no-default-features|--no-default-features --test demo" "$md/notes.md" 2>/dev/null && feat="--no-default-features"
 cargo test --offline $feat --test demo_mut >"$wt/demo_pristine.log" 2>&1; demo_pristine=$?
 applies=0
 git apply "$md/patch.diff" 2>/dev/null || git apply --3way "$md/patch.diff" 2>/dev/null || applies=1
